@@ -56,6 +56,7 @@ class Gen:
         self.comments.append(c); return c['id']
     def ref_run(self, cid): return ['run', self.fresh(), [[100 + len(RPR_EXTRA), 0]], [['ref', cid]]]
     def nodes(self):
+        if self.profile == 'c12': return self.nodes_c12()
         out = []; sp = lambda: out.append(['run', self.fresh(), None, [['t', ' ']]])
         for _ in range(self.r.randint(1, 5)):
             x = self.r.random()
@@ -88,11 +89,18 @@ class Gen:
                 if self.r.random() < .4: out.append(['other', self.r.choice([1, 2])])
                 out.append(self.run(rpr=f))
         return out
+    def nodes_c12(self):
+        out = []
+        for i in range(self.r.randint(1, 4)):
+            if out: out.append(['run', self.fresh(), None, [['t', ' ']]])
+            f = [[1, 1]] if self.r.random() < .25 else None
+            out.append(['run', self.fresh(), f, [['t', self.text(self.r.randint(1, 4))]]])
+        return out
     def para(self, nodes=None):
         self.pid += 1
         x = self.r.random()
         style = ['N', False]
-        if self.profile != 'plain':
+        if self.profile not in ('plain',):
             if x < .08: style = ['H', self.r.randint(1, 3)]; self.features.add('heading')
             elif x < .1: style = ['T']; self.features.add('heading')
             elif x < .13: style = ['O']
@@ -119,7 +127,7 @@ class Gen:
     def blocks(self, n):
         out = []
         for _ in range(n):
-            if self.profile in ('full',) and self.r.random() < .15: out.append(self.table())
+            if self.profile in ('full', 'c12') and self.r.random() < .15: out.append(self.table())
             else: out.append(self.para())
         return out
     def doc(self, nparas=None):
